@@ -164,6 +164,10 @@ Next ==
        [] e.ev = "quiet" ->
             /\ qhi' = qhi + 1
             /\ UNCHANGED <<bad, div, nontrivial, pl, wr, qlo, slo, shi>>
+       [] e.ev = "stale" ->
+            \* a valid key store was written and never loaded: the key in use is not the one of the store
+            /\ bad' = bad \cup {Rej(l, e.id, {"valid-key-store-never-loaded"})}
+            /\ UNCHANGED <<div, nontrivial, pl, wr, qlo, qhi, slo, shi>>
        [] e.ev = "swap" ->
             /\ shi' = shi + 1
             /\ UNCHANGED <<bad, div, nontrivial, pl, wr, qlo, qhi, slo>>
